@@ -237,7 +237,7 @@ Lemma run_pp_tab c sA t p x m0 ls tab : c_idem c = true ->
   g_panic s' = None -> g_epoch s' = g_epoch sA ->
   (forall a b, In a (flat s') -> In b (flat s') -> is_data a = true -> is_data b = true -> m_id a = m_id b -> a = b) ->
   exists tab', incl tab tab' /\ tab_ok (g_epoch s') (SQof s') tab' /\ Forall (core tab') (flat s') /\
-    (forall i st, In (i, st) tab' -> In (i, st) tab \/ exists m', In m' (flat s') /\ is_data m' = true /\ m_id m' = i).
+    (forall i st, In (i, st) tab' -> In (i, st) tab \/ (~ In i (map fst tab) /\ exists m', In m' (flat s') /\ is_data m' = true /\ m_id m' = i)).
 Proof.
   intros Hi Hp Hf Hu0 Hc0 HuI HcI Ht s' Hnp He Huq.
   destruct (run_pp_core c sA t p x m0 ls Hp Hu0 HuI) as [effs [n [Sn [Tx [Hcl [Hfw Hsh]]]]]]. fold s' in Tx, Hcl, Hfw, Hsh.
@@ -255,8 +255,14 @@ Proof.
   - intros k N. rewrite Hsq. unfold ks. apply tpk_eqb_neq in N. rewrite N. lia.
   - exists (tab ++ map pairof (newL effs)). split; [apply incl_appl, incl_refl|]. rewrite He. split; [exact T'|]. split; [exact C'|].
     intros i st Hin. apply in_app_or in Hin as [Hin|Hin]; [left; exact Hin|]. right.
-    apply in_map_iff in Hin as [m' [Ep Hm']]. exists m'. split; [apply Hfw; assumption|].
-    destruct (Hsh m' Hm') as [m [sq [_ [-> [_ Hd]]]]]. injection Ep as <- _. split; [exact Hd | reflexivity].
+    apply in_map_iff in Hin as [m' [Ep Hm']]. destruct (Hsh m' Hm') as [m [sq [HinI [-> [Hfr Hd]]]]]. injection Ep as <- _.
+    assert (Hum : upk (g_epoch sA) (t, p) m /\ core tab m).
+    { destruct HinI as [<-|HinI]; [split; assumption|]. rewrite Forall_forall in HuI, HcI. split; [apply HuI | apply HcI]; exact HinI. }
+    destruct Hum as [[[_ [Hup _]] _] Hcm].
+    assert (Hns : m_hasseq m = false).
+    { destruct (m_hasseq m) eqn:Eh; [|reflexivity]. assert (stamped m = true) as Hst by (unfold stamped; rewrite Hd, Eh; reflexivity).
+      rewrite (Hup Hst) in Hfr. discriminate. }
+    split; [apply (Hcm Hd), Hns|]. exists (set_stamp m sq (g_epoch sA)). split; [apply Hfw; assumption | split; [exact Hd | reflexivity]].
 Qed.
 
 Lemma pop_flat d s m s1 : pop d s = Some (m, s1) -> In m (flat s) /\ (forall a, In a (flat s1) -> In a (flat s)).
@@ -278,12 +284,12 @@ Lemma core_step_cpp c s t p ls tab : c_idem c = true ->
   g_epoch s' = g_epoch s ->
   (forall a b, In a (flat s') -> In b (flat s') -> is_data a = true -> is_data b = true -> m_id a = m_id b -> a = b) ->
   exists tab', incl tab tab' /\ tab_ok (g_epoch s') (SQof s') tab' /\ Forall (core tab') (flat s') /\
-    (forall i st, In (i, st) tab' -> In (i, st) tab \/ exists m', In m' (flat s') /\ is_data m' = true /\ m_id m' = i).
+    (forall i st, In (i, st) tab' -> In (i, st) tab \/ (~ In i (map fst tab) /\ exists m', In m' (flat s') /\ is_data m' = true /\ m_id m' = i)).
 Proof.
   intros Hi Hp Hf Ht s' He Huq.
   assert (Keep : forall s0, flat s0 = flat s -> g_epoch s0 = g_epoch s -> g_seqs s0 = g_seqs s ->
                  exists tab', incl tab tab' /\ tab_ok (g_epoch s0) (SQof s0) tab' /\ Forall (core tab') (flat s0) /\
-                   (forall i st, In (i, st) tab' -> In (i, st) tab \/ exists m', In m' (flat s0) /\ is_data m' = true /\ m_id m' = i)).
+                   (forall i st, In (i, st) tab' -> In (i, st) tab \/ (~ In i (map fst tab) /\ exists m', In m' (flat s0) /\ is_data m' = true /\ m_id m' = i))).
   { intros s0 E1 E2 E3. exists tab. unfold SQof. rewrite E1, E2, E3. split; [apply incl_refl | split; [assumption | split; [assumption | intros i st H; left; exact H]]]. }
   subst s'. unfold step in *. destruct (g_panic s) eqn:Eps; [apply Keep; reflexivity|].
   destruct (g_panic (raw_step c s (CPp t p ls))) eqn:Epr; [apply Keep; reflexivity|].
@@ -334,4 +340,124 @@ Proof.
     destruct Hx' as [Hx1 Hx2].
     destruct (run_pp_tab c s3 t p x' m0 ls' tab Hi H3 Hf3 Hm0 Hc0 Hx1 Hx2 Ht3 Epr) as [tab' [I1 [I2 [I3 I4]]]]; [rewrite E3, E1; exact He | exact Huq|].
     exists tab'. split; [exact I1 | split; [exact I2 | split; assumption]].
+Qed.
+
+(* ---------------------------------------------------------------- predicates that every rewriting keeps *)
+
+Lemma simple_closure c (R : msg -> Prop) s ch :
+  (forall m r, R m -> R (set_retries m r)) -> (forall m sz h, R m -> R (set_body m sz h)) ->
+  (forall m p, R m -> R (set_part m p)) -> (forall m sq ep, R m -> R (set_stamp m sq ep)) ->
+  (forall t p r, R (marker c t p F_SYN r) /\ R (marker c t p F_FIN r)) -> R (shutdown_marker c) ->
+  (forall x, ch = CSubmit x -> g_close_req s = false -> g_panic s = None -> R (fresh_of x)) ->
+  Forall R (flat s) -> Forall R (flat (step c s ch)).
+Proof.
+  intros R1 R2 R3 R4 R5 R6 R7 H.
+  assert (T : transfers (mkPreds (fun _ => R) (fun _ => R) R) True c (g_epoch s) (fun k => seq_get k (g_seqs s))).
+  { constructor; cbn [PQ PL PB]; auto.
+    intros _. constructor; cbn [PQ PL PB]; auto.
+    - intros t p b m Hm. destruct (c_idem c && fresh_pass m && is_data m); auto.
+    - intros t p b m sq Hm _. destruct (c_idem c && fresh_pass m && is_data m && negb (m_hasseq m)); auto. }
+  eapply places_flat; [apply (step_places _ True c s ch (flat_places R s H) T); [intros; exact I | exact R7 | exact R6] | | |]; cbn [PQ PL PB]; auto.
+Qed.
+
+Lemma count_id_app i a b : count_id i (a ++ b) = (count_id i a + count_id i b)%nat.
+Proof. unfold count_id. rewrite filter_app, app_length. reflexivity. Qed.
+Lemma count_id_in i l : In i l -> (1 <= count_id i l)%nat.
+Proof.
+  unfold count_id. induction l as [|x r IH]; intros H; [contradiction|]. cbn [filter]. destruct H as [->|H].
+  - rewrite Z.eqb_refl. cbn [length]. lia.
+  - specialize (IH H). destruct (i =? x); cbn [length]; lia.
+Qed.
+
+(* ---------------------------------------------------------------- the lineage invariant and its step *)
+
+Definition subok (s : state) (m : msg) : Prop := is_data m = true -> In (m_id m) (map m_id (g_submitted s)).
+
+Record lin (s : state) (tab : list (Z * stamp)) : Prop := mkLin {
+  li_ok : tab_ok (g_epoch s) (SQof s) tab;
+  li_core : Forall (core tab) (flat s);
+  li_sub : Forall (subok s) (flat s);
+  li_t6 : forall i st, In (i, st) tab -> In i (map m_id (g_submitted s))
+}.
+
+Lemma submitted_incl c s ch i : In i (map m_id (g_submitted s)) -> In i (map m_id (g_submitted (step c s ch))).
+Proof.
+  intros H. destruct (submitted_step c s ch) as [E|[m E]]; rewrite E; [exact H | rewrite map_app; apply in_or_app; left; exact H].
+Qed.
+
+Lemma submit_step c s x : g_close_req s = false -> g_panic s = None ->
+  g_submitted (step c s (CSubmit x)) = g_submitted s ++ [fresh_of x].
+Proof. intros Hc Hp. unfold step. rewrite Hp. cbn [raw_step]. rewrite Hc. cbn. rewrite Hp. reflexivity. Qed.
+
+Lemma sub_step c s ch : Forall (subok s) (flat s) -> Forall (subok (step c s ch)) (flat (step c s ch)).
+Proof.
+  intros H. apply simple_closure; unfold subok.
+  - intros m r Hm; exact Hm.
+  - intros m sz h Hm; exact Hm.
+  - intros m p Hm; exact Hm.
+  - intros m sq ep Hm; exact Hm.
+  - intros t p r. split; intros Hd; cbn in Hd; discriminate.
+  - intros Hd; cbn in Hd; discriminate.
+  - intros x -> Hc Hp _. rewrite (submit_step c s x Hc Hp), map_app. apply in_or_app. right. left. reflexivity.
+  - eapply Forall_impl; [|exact H]. intros m Hm Hd. apply submitted_incl, Hm, Hd.
+Qed.
+
+Lemma unst_step c s ch (tab : list (Z * stamp)) :
+  (forall x, ch = CSubmit x -> g_close_req s = false -> g_panic s = None -> ~ In (m_id x) (map fst tab)) ->
+  Forall (fun m => is_data m = true -> m_hasseq m = false -> ~ In (m_id m) (map fst tab)) (flat s) ->
+  Forall (fun m => is_data m = true -> m_hasseq m = false -> ~ In (m_id m) (map fst tab)) (flat (step c s ch)).
+Proof.
+  intros Hsub H. apply simple_closure.
+  - intros m r Hm; exact Hm.
+  - intros m sz h Hm; exact Hm.
+  - intros m p Hm; exact Hm.
+  - intros m sq ep _ _ Hh. cbn in Hh. discriminate.
+  - intros t p r. split; intros Hd; cbn in Hd; discriminate.
+  - intros Hd; cbn in Hd; discriminate.
+  - intros x Hx Hc Hp _ _. apply (Hsub x Hx Hc Hp).
+  - exact H.
+Qed.
+
+Lemma step_epoch_mono c s ch : g_epoch s <= g_epoch (step c s ch).
+Proof.
+  destruct (step_txn c s ch) as [l El]. pose proof (txn_effs_mono l (txn_of s)) as M. rewrite <- El in M. exact M.
+Qed.
+
+Lemma lin_step c s ch tab : c_idem c = true -> places_ok (PE (g_epoch s)) s -> lin s tab ->
+  let s' := step c s ch in
+  (g_epoch s' <> g_epoch s -> no_stamped s') ->
+  (forall a b, In a (flat s') -> In b (flat s') -> is_data a = true -> is_data b = true -> m_id a = m_id b -> a = b) ->
+  (forall i, (subm_count i s' <= 1)%nat) ->
+  exists tab', incl tab tab' /\ lin s' tab' /\ (forall i st, In (i, st) tab' -> In (i, st) tab \/ ~ In i (map fst tab)).
+Proof.
+  intros Hi Hp [Lok Lcore Lsub Lt6] s' Hk Huq Hsc.
+  assert (Hsubm : forall x, ch = CSubmit x -> g_close_req s = false -> g_panic s = None -> ~ In (m_id x) (map fst tab)).
+  { intros x -> Hc Hnp Hin. apply in_map_iff in Hin as [[i st] [Ei Hin]]. cbn [fst] in Ei. subst i.
+    pose proof (Lt6 _ _ Hin) as H6. pose proof (Hsc (m_id x)) as H1. unfold subm_count in H1. subst s'.
+    rewrite (submit_step c s x Hc Hnp), map_app, count_id_app in H1. pose proof (count_id_in _ _ H6).
+    assert (Ec : count_id (m_id x) (map m_id [fresh_of x]) = 1%nat) by (unfold count_id; cbn [map fresh_of m_id filter]; rewrite Z.eqb_refl; reflexivity).
+    rewrite Ec in H1. lia. }
+  pose proof (sub_step c s ch Lsub) as Lsub'. fold s' in Lsub'.
+  assert (T6old : forall i st, In (i, st) tab -> In i (map m_id (g_submitted s'))) by (intros i st H; apply submitted_incl, (Lt6 _ _ H)).
+  destruct (Z.eq_dec (g_epoch s') (g_epoch s)) as [Ee|Ne].
+  - destruct (is_cpp ch) eqn:Ec.
+    + destruct ch; try discriminate.
+      destruct (core_step_cpp c s t p ls tab Hi Hp Lcore Lok Ee Huq) as [tab' [I1 [I2 [I3 I4]]]]. fold s' in I2, I3, I4.
+      exists tab'. split; [exact I1|]. split; [|intros i st Hin; destruct (I4 i st Hin) as [G|[G _]]; [left; exact G | right; exact G]].
+      constructor; try assumption.
+      intros i st Hin. destruct (I4 i st Hin) as [G|[_ [m' [G1 [G2 G3]]]]]; [eapply T6old, G|].
+      rewrite Forall_forall in Lsub'. rewrite <- G3. apply (Lsub' m' G1 G2).
+    + exists tab. split; [apply incl_refl|]. split; [|intros i st Hin; left; exact Hin]. constructor; try assumption.
+      * destruct Lok as [F I B]. rewrite Ee. constructor; try assumption.
+        intros i k e q H. destruct (B _ _ _ _ H) as [G|[G1 G2]]; [left; exact G | right; split; [exact G1|]].
+        pose proof (step_counters c s ch k Ee) as Hm. unfold SQof in *. unfold s'. lia.
+      * apply core_step_other; assumption.
+  - specialize (Hk Ne). exists tab. split; [apply incl_refl|]. split; [|intros i st Hin; left; exact Hin]. constructor; try assumption.
+    + destruct Lok as [F I B]. constructor; try assumption.
+      intros i k e q H. pose proof (step_epoch_mono c s ch). fold s' in H0. left. destruct (B _ _ _ _ H) as [G|[G1 G2]]; lia.
+    + assert (Hns : Forall (fun m => stamped m = false) (flat s')) by (eapply places_flat; [exact Hk | | |]; cbn [PQ PL PB]; auto).
+      assert (Hun : Forall (fun m => is_data m = true -> m_hasseq m = false -> ~ In (m_id m) (map fst tab)) (flat s')).
+      { apply unst_step; [exact Hsubm|]. eapply Forall_impl; [|exact Lcore]. intros m Hm Hd Hh. apply (Hm Hd), Hh. }
+      rewrite Forall_forall in *. intros m Hm Hd. pose proof (Hns m Hm) as S. unfold stamped in S. rewrite Hd in S. cbn [andb] in S.
+      split; [intros Hh; congruence | intros Hh; apply (Hun m Hm Hd Hh)].
 Qed.
